@@ -143,6 +143,10 @@ def classify(src, ptoks, kind, detail):
     removed (and nothing else changed) the same source passes both exact comparators"""
     import re
 
+    if kind == "fstring-tree-differs" and "\\\n" in src and all(
+        d[1] == "pos" and d[0].rsplit(".", 1)[1] in ("end_lineno", "end_col_offset") and ".values[" in d[0] for d in detail["diffs"]
+    ):
+        return "F10f"
     neutral = src
     marks = _debug_markers(src, ptoks)
     if marks:
@@ -151,6 +155,9 @@ def classify(src, ptoks, kind, detail):
         if _passes(neutral):
             return "F10e"
     deep = re.compile(r"(:[^{}'\"]*\{[^{}:]*):[^{}]*\{[^{}]*\}")
+    n2 = re.sub(r"(:[^{}'\"]*)\{(\w+):[^{}'\"]*\{\w+\}\}", r"\1{\2}", neutral)  # ...:{w:>{z}}} -> ...:{w}}
+    if n2 != neutral and _passes(n2):
+        return "F10c"
     n2 = neutral
     for _ in range(8):
         n3 = deep.sub(r"\1", n2)
@@ -159,13 +166,6 @@ def classify(src, ptoks, kind, detail):
         n2 = n3
     if n2 != neutral and _passes(n2):
         return "F10c"
-    n4 = re.sub(r"\{(\w+):[^{}'\"]*\{\w+\}\}", r"{\1}", neutral)  # {w:>{z}} -> {w}
-    if n4 != neutral and _passes(n4):
-        return "F10c"
-    if kind == "fstring-tree-differs" and "\\\n" in src and all(
-        d[1] == "pos" and d[0].rsplit(".", 1)[1] in ("end_lineno", "end_col_offset") and ".values[" in d[0] for d in detail["diffs"]
-    ):
-        return "F10f"
     return None
 
 
